@@ -123,20 +123,27 @@ class Harness(object):
             for b in BEHAVIOURS:
                 self.eps[(pos, b)] = mk(pos, b)
 
+        def render(context):
+            return Response('RENDERED-BY-MISTAKE', status=200)
+        self.render = render
+
     def entry(self, pos, desc, style):
         from clastic import Route, GET, POST
         p, m, b = PATTERNS[desc[0]], METHODS[desc[1]], BEHAVIOURS[desc[2]]
         ep = self.eps[(pos, b)]
+        # routes at odd positions have a render function: a Response or an HTTP error coming out of the endpoint -
+        # raised or returned - is never rendered
+        rn = self.render if pos % 2 else None
         if style == 'add':
             if m is None:
-                return (p, ep)
+                return (p, ep, rn) if rn else (p, ep)
             if m == ['GET']:
-                return GET(p, ep)
+                return GET(p, ep, rn)
             if m == ['POST']:
-                return POST(p, ep)
+                return POST(p, ep, rn)
             if m == ['get', 'Post']:
-                return Route(p, ep, methods=('post', 'GET'))
-        return Route(p, ep, methods=m)
+                return Route(p, ep, rn, methods=('post', 'GET'))
+        return Route(p, ep, rn, methods=m)
 
     def build(self, table, mode, order=None):
         """order None: constructor list. Otherwise a permutation: insertion order of table positions."""
@@ -223,8 +230,9 @@ def check_table(acc, h, table, mode, order, layer):
 
 # ---- extra layer: typed binding with an over-long numeral, and a request class that reports the raw method ----
 X_ROUTES = [('/<n:int>', None, 'answer'), ('/<n:int>', ['GET'], 'answer'), ('/<n:int>', ['post'], 'nb404r'),
-            ('/<x>', None, 'answer'), ('/<x>', ['POST'], 'answer'), ('/<x>', ['get', 'Post'], 'nb403t')]
-X_PATHS = ['/5', '/' + '9' * 5000, '/abc', '/0']
+            ('/<x>', None, 'answer'), ('/<x>', ['POST'], 'answer'), ('/<x>', ['get', 'Post'], 'nb403t'),
+            ('/t/<name>/', None, 'answer')]
+X_PATHS = ['/5', '/' + '9' * 5000, '/abc', '/0', '/t/two words/', u'/t/caf\xe9/', '/t/me@example.org']
 X_METHODS = ['GET', 'get', 'Post', 'POST', 'HEAD', 'head', 'PUT']
 
 
@@ -249,7 +257,8 @@ def check_x(acc, h, combo, raw_request):
     class RawApp(Application):
         request_type = RawMethodRequest
     cls = RawApp if raw_request else Application
-    app = cls([Route(d['pattern'], h.eps[(i, d['behaviour'])], methods=d['methods']) for i, d in enumerate(desc)])
+    app = cls([Route(d['pattern'], h.eps[(i, d['behaviour'])], h.render if i % 2 else None, methods=d['methods'])
+               for i, d in enumerate(desc)])
     for path in X_PATHS:
         for method in X_METHODS:
             exp = D.dispatch(desc, M.REDIRECT, path, method)
